@@ -26,7 +26,7 @@ def items(tier):
                 sp = F.with_teams(fl, "POOL2")
                 sp = dict(sp, tasks=[dict(t) for t in sp["tasks"]], components=comps)
                 if var == 1:
-                    sp["tasks"][0]["progress"] = 1.0
+                    sp["tasks"][0]["progress"] = 1.0 if len(fl["links"]) % 2 else 1.0 - 5e-11  # complete, or complete within the tolerance
                     sp["tasks"][1]["progress"] = 0.5
                 elif var == 2:
                     sp["tasks"][2]["auto"] = True
